@@ -53,6 +53,7 @@ type recDef struct {
 	decrTerm   string
 	calls      []recCall
 	collectCalls bool
+	innerOf    map[string]string // element heap array -> parameter symbol of the only backing array read
 }
 
 func specFail(format string, a ...any) {
@@ -582,6 +583,10 @@ func (c *SpecCtx) quant(x *SExpr) Value {
 	for _, tr := range x.Trig {
 		var ps []string
 		for _, t := range tr {
+			if et, ok := inner.packedElemTerm(t); ok {
+				ps = append(ps, et)
+				continue
+			}
 			ps = append(ps, e.flatten(inner.eval(t))...)
 		}
 		pats = append(pats, ":pattern ("+strings.Join(ps, " ")+")")
@@ -685,6 +690,13 @@ func (c *SpecCtx) call(x *SExpr) Value {
 			cs = append(cs, fmt.Sprintf("(forall ((|$r| Int)) (! (=> (< |$r| %s) (= (select %s |$r|) (select %s |$r|))) :pattern ((select %s |$r|))))", c.old.next, a1, a0, a1))
 		}
 		return boolV(mkAnd(cs...))
+	case "disjoint":
+		a, ok1 := c.eval(x.Args[0]).(*Slice)
+		b, ok2 := c.eval(x.Args[1]).(*Slice)
+		if !ok1 || !ok2 {
+			specFail("disjoint needs two slices")
+		}
+		return boolV(mkNot(mkEq(a.Arr, b.Arr)))
 	case "samearr":
 		a, ok1 := c.eval(x.Args[0]).(*Slice)
 		b, ok2 := c.eval(x.Args[1]).(*Slice)
@@ -971,6 +983,16 @@ func (c *SpecCtx) callRec(it *Item, pkg *types.Package, args []Value, ptypes []t
 	}
 	nargs := len(ts)
 	for _, hn := range rd.heapNames {
+		if ps, ok := rd.innerOf[hn]; ok {
+			actual := ""
+			for i, p := range rd.paramSyms {
+				if p == ps {
+					actual = ts[i]
+				}
+			}
+			ts = append(ts, mkSelect(c.heapTermFor(hn, "(Array Int "+rd.heapSort[hn]+")"), actual))
+			continue
+		}
 		ts = append(ts, c.heapTermFor(hn, rd.heapSort[hn]))
 	}
 	app := sx(rd.name, ts...)
@@ -1045,6 +1067,28 @@ func (e *Env) defineRec(rd *recDef, pkg *types.Package) {
 	e.quantDepth--
 	e.symHeaps = e.symHeaps[:len(e.symHeaps)-1]
 	sort.Strings(rd.heapNames)
+	// inner-array abstraction: if the body reads an element heap array only at one backing
+	// array that is a parameter (E[$s#arr]), the function takes that inner array instead of
+	// the whole heap array; writes to other backing arrays then leave its value unchanged
+	// by congruence, without frame lemmas.
+	rd.innerOf = map[string]string{}
+	for _, hn := range rd.heapNames {
+		if !strings.HasPrefix(hn, "E!") {
+			continue
+		}
+		sym := q("h$" + hn)
+		total := strings.Count(body, sym)
+		for _, ps := range rd.paramSyms {
+			pat := "(select " + sym + " " + ps + ")"
+			if c := strings.Count(body, pat); c > 0 && c == total {
+				rd.innerOf[hn] = ps
+				body = strings.ReplaceAll(body, pat, sym)
+				srt := rd.heapSort[hn]
+				// (Array Int (Array Int X)) -> (Array Int X)
+				rd.heapSort[hn] = strings.TrimSuffix(strings.TrimPrefix(srt, "(Array Int "), ")")
+			}
+		}
+	}
 	var hp []string
 	for _, hn := range rd.heapNames {
 		sorts = append(sorts, rd.heapSort[hn])
@@ -1063,3 +1107,26 @@ func (e *Env) defineRec(rd *recDef, pkg *types.Package) {
 }
 
 type symHeapCollector struct{ rd *recDef }
+
+// packedElemTerm: for a trigger s[i] over a slice whose elements are packed tuples, the
+// tuple term itself (so the trigger fires on any field access of that element).
+func (c *SpecCtx) packedElemTerm(x *SExpr) (string, bool) {
+	for x.Op == "paren" {
+		x = x.Args[0]
+	}
+	if x.Op != "index" {
+		return "", false
+	}
+	b, ok := c.eval(x.Args[0]).(*Slice)
+	if !ok {
+		return "", false
+	}
+	et := b.Typ.Underlying().(*types.Slice).Elem()
+	if _, _, _, ok := c.e.packed(et); !ok {
+		return "", false
+	}
+	p := &Ptr{Kind: "elem", Ref: b.Arr, Idx: addTerms(b.Off, c.intTerm(c.eval(x.Args[1]))), Root: et}
+	name, srt := c.e.locName(p, Leaf{})
+	arr := c.e.heapGet(c.st, name, srt)
+	return mkSelect(mkSelect(arr, p.Ref), p.Idx), true
+}
